@@ -3,7 +3,7 @@ LEVEL_TEXT = ('Bounded model checking of STEPattribute::STEPread (IR-translated 
   'OPTIONAL flag, strict flag and text form symbolic, base kind forked per query, against the decision table of the property.')
 SRCS = ['src/clstepcore/STEPattribute.cc', 'src/clstepcore/typeDescriptor.cc', 'src/clstepcore/attrDescriptor.cc', 'src/clstepcore/read_func.cc', 'src/clutils/Str.cc', 'src/clstepcore/sdai.cc',
         'src/cldai/sdaiEnum.cc', 'src/cldai/sdaiString.cc', 'src/cldai/sdaiBinary.cc']
-KN = ['INTEGER', 'REAL', 'NUMBER', 'STRING', 'BOOLEAN (every other kind)']
+KN = ['INTEGER', 'REAL', 'NUMBER', 'STRING', 'BOOLEAN (every other kind)', 'LOGICAL (every other kind)', 'BINARY (every other kind)']
 HARNESSES = [
   H('missing_%d' % k, 'irc', 'harness/C15/h_missing.c', wrapper='harness/C15/wrap_attr.cc', repo_srcs=SRCS, irc_extra_cc=['harness/common/errordesc_stub.cc'],
     native_lib=['src/clstepcore', 'src/clutils', 'src/cldai'], models=['lib/cmodels/cxx_rt.c', 'lib/cmodels/printf_null.c', 'lib/cmodels/sprintf_only.c'],
@@ -13,11 +13,11 @@ HARNESSES = [
     stubs=['vstd model', 'ErrorDescriptor messages dropped', 'owner EntityDescriptor: raw storage (never dereferenced)', 'callees of the SELECT / ENTITY / aggregate / undefined branches of STEPread/STEPwrite/set_null are left without body: those branches are not taken for the five kinds driven here'],
     timeout={'quick': 600, 'thorough': 1800},
     allow_undef=['_Z13ReadEntityRefRSt7istreamP15ErrorDescriptorPKcP11InstMgrBasei', '_Z16EntityValidLevelP25SDAI_Application_instancePK14TypeDescriptorP15ErrorDescriptor', '_ZN11SDAI_Select5ErrorEv', '_ZN11SDAI_Select7is_nullEv', '_ZN11SDAI_Select8STEPreadERSt7istreamP15ErrorDescriptorP11InstMgrBasePKciS7_', '_ZN11SDAI_Select8set_nullEv', '_ZN12SCLundefined7is_nullEv', '_ZN12SCLundefined8set_nullEv', '_ZN16Where_rule__listD1Ev', '_ZN25SDAI_Application_instance19STEPwrite_referenceERSt7ostream', '_ZNK11SDAI_Select9STEPwriteERSt7ostreamPKc', '_ZNK9SchRename6renameEPKcPc', '_ZN12SCLundefined8STEPreadERSt7istreamP15ErrorDescriptorPKc', '_ZN12SCLundefined9STEPwriteERSt7ostream', '_ZN13STEPaggregate8STEPreadERSt7istreamP15ErrorDescriptorPK14TypeDescriptorP11InstMgrBaseiPKc', '_ZNK13STEPaggregate9STEPwriteERSt7ostreamPKc', '_ZN13STEPaggregate5EmptyEv'],
-    out_of_claim='how STEPfile maps USERMSG/INCOMPLETE to the file verdict and exit status, inherited attributes, complex parts, derived/redefined attributes') for k in (0, 1, 2, 3, 4)
+    out_of_claim='how STEPfile maps USERMSG/INCOMPLETE to the file verdict and exit status, inherited attributes, complex parts, derived/redefined attributes') for k in (0, 1, 2, 3, 4, 5, 6)
 ]
-JOBS = 5
+JOBS = 7
 MANIFEST = {
-  'level_text': 'Bounded model checking of the real STEPattribute::STEPread on missing values: for every combination of OPTIONAL, strict/lenient and the four text forms of an unset value, and for INTEGER/REAL/NUMBER/STRING/other kinds, the severity follows the documented table (optional accepted; strict INCOMPLETE; lenient numeric/string accepted with a user message and 0 / 0.0 / empty string substituted and written back; other kinds INCOMPLETE) and the stream stops at the delimiter.',
+  'level_text': 'Bounded model checking of the real STEPattribute::STEPread on missing values: for every combination of OPTIONAL, strict/lenient and the four text forms of an unset value, and for INTEGER/REAL/NUMBER/STRING and the other kinds BOOLEAN, LOGICAL, BINARY, the severity follows the documented table (optional accepted; strict INCOMPLETE; lenient numeric/string accepted with a user message and 0 / 0.0 / empty string substituted and written back; other kinds INCOMPLETE) and the stream stops at the delimiter.',
   'level_note': 'Trusted: CBMC, ir2c, vstd. Real TypeDescriptor/AttrDescriptor/STEPattribute objects, owner descriptor is raw storage. Outside: the mapping of attribute severities to the file verdict / exit status, attribute positions, inheritance, complex parts.',
   'technique': 'CBMC bounded model checking of IR-translated STEPattribute::STEPread with symbolic optional/strict flags against the property decision table',
   'design_ref': 'DESIGN.md section 2, C15',
